@@ -29,13 +29,41 @@ STRENGTHENED = {
  'C20/m3': 'diffusion stencils modelled op-by-op (bit-exact tie) + exactness-on-quadratics oracle and theorems',
  'C02/m2': 'complex Hermitian hierarchies with a multi-unknown coarsest level, coarse solvers dealt out',
  'C01/m2': 'zero right-hand side with no initial guess',
+ 'C02/m4': 'several iterations of Chebyshev / Richardson in the smoother family, dealt out systematically',
+ 'C02/m6': 'genuine 2x2 block Gauss-Seidel smoothers (blocksize 1 is replaced by the point method in the setup); nonzero right-hand side with the guess at the solution',
+ 'C03/m5': 'spy accelerator: the operator handed over by solve(accel=..., cycle=...) must be M of that cycle',
+ 'C03/m6': 'one call with maxiter=1 from a guess already within the default tolerance',
+ 'C04/m4': 'CLJP / PMISc / RS with a strength threshold that leaves no strong connection (all-C / all-F stalls)',
+ 'C04/m5': 'MultilevelSolver built from hand-made levels without R (complex Hermitian, real, BSR)',
+ 'C04/m6': 'inputs rescaled by 2^-60 and 2^60; Galerkin tolerance relative to |R||A||P| (no absolute term)',
+ 'C05/m6': 'oracle problem stored in 2x2 blocks (BSR kernels)',
+ 'C06/m4': 'fixed ill-conditioned probe (cond 1e8, tol 1e-12): status 0 must survive recomputation of the residual',
+ 'C06/m5': 'every call repeated with only a callback, only a history list, and neither',
+ 'C07/m4': 'operator storage alternates between dense and CSR (complex sparse adjoint path)',
+ 'C07/m5': 'preconditioned CGNR / CGNE checked against their preconditioned Krylov spaces (failing input instead of correspondence only)',
+ 'C09/m4': 'zero initial guess combined with 2-3 iterations (systematic, was by chance)',
+ 'C09/m5': 'every public call gets a fresh copy of the matrix with shuffled column order (an earlier call had sorted it in place)',
+ 'C10/m4': 'polynomial identity fitted for Richardson and for every degree',
+ 'C10/m5': 'block / diagonal / local weighting on a BSR problem rescaled per unknown (diagonal blocks not multiples of the identity)',
+ 'C13/m4': 'strength values with S_ij = -S_ji (cancel in S + S^T) and random nonzero values',
+ 'C13/m6': '400 random directed patterns on 5-7 vertices',
+ 'C15/m4': 'constructors with Jacobi local / block / filtered, Richardson, energy smoothing, evolution strength, candidate improvement',
+ 'C15/m5': 'constructors with relaxation-type coarse solvers',
+ 'C16/m4': 'nonsingular matrices that cannot be solved without pivoting',
+ 'C16/m6': 'integer right-hand sides and real right-hand sides for complex matrices (direct solvers)',
+ 'C17/m4': 'dense-GMRES AIR paths with maxiter below the local system size in the sanitizer corpus',
+ 'C18/m4': 'RCM on the same pattern with nonsymmetric values',
+ 'C19/m4': 'condest on 1D Poisson and a periodic stencil',
+ 'C19/m5': 'block pseudo-inverse of blocks scaled by 2^-45 and 2^40',
+ 'C19/m6': 'inverse / plain / inverse call sequence on one BSR object',
+ 'C20/m6': 'FE Poisson: tensor-product spectrum and zero interior row sums',
 }
 rows = []
 for mdir in sorted(glob.glob(ROOT + '/C*/m*')):
     pid, mk = mdir.split('/')[-2:]
     meta = json.load(open(mdir + '/meta.json')) if os.path.exists(mdir + '/meta.json') else {}
     res = None
-    for fn in ('result.json', 'result_par.json'):
+    for fn in (('result_par.json', 'result.json') if mk in ('m4', 'm5', 'm6') else ('result.json', 'result_par.json')):
         if os.path.exists(os.path.join(mdir, fn)):
             res = json.load(open(os.path.join(mdir, fn)))
             break
